@@ -20,6 +20,10 @@ class NetCheck(Check):
 
     def make(self, ctx, index):
         rng = core.rng_for(ctx.seed, "nets", index)
+        if self.own == "progress" and index % 40 == 39:
+            # fairness probe: runnable fibers get their turn although two other fibers keep handing over to each other
+            return {"starve": nets.starve_generate(rng), "gc": schedules.never() if rng.random() < 0.6 else
+                    schedules.random_schedule(rng, self.startup, self.startup + 300), "arena": schedules.random_policy(rng, 0.4)}
         ir = nets.generate(rng)
         roll = rng.random()
         if roll < 0.5:
@@ -28,7 +32,21 @@ class NetCheck(Check):
             gc = schedules.random_schedule(rng, self.startup, self.startup + 300)
         return {"ir": ir, "gc": gc, "arena": schedules.random_policy(rng, 0.4)}
 
+    def judge_starve(self, ctx, case):
+        outcome = {"jobs": 1, "violations": [], "signatures": [], "counters": {"fairness_probes": 1}}
+        program = nets.starve_program(case["starve"])
+        result = ctx.run({"id": "starve", "main": program["main"], "files": program["files"], "gc": case["gc"], "arena": case["arena"],
+                          "steps": 200000 + 400 * nets.STARVE_BOUND})
+        outcome["counters"]["vm_instructions"] = result["steps"]
+        for clause, detail in nets.starve_check(result, case["starve"]):
+            outcome["violations"].append({"clause": clause, "detail": detail + "\n" + program["files"][program["main"]],
+                                          "case": copy.deepcopy(case), "explicit": copy.deepcopy(case)})
+        outcome["sample"] = {"network": "fairness probe", "params": case["starve"]}
+        return outcome
+
     def judge(self, ctx, case):
+        if "starve" in case:
+            return self.judge_starve(ctx, case)
         ir = case["ir"]
         outcome = {"jobs": 0, "violations": [], "signatures": [], "counters": {}}
         counters = outcome["counters"]
@@ -102,6 +120,8 @@ class NetCheck(Check):
         return outcome
 
     def shrink_candidates(self, case, clause):
+        if "starve" in case:
+            return
         for ir in nets.shrink(case["ir"]):
             if not nets.valid_zone(ir) and not case.get("pinned"):
                 continue
